@@ -145,6 +145,15 @@ register("C08", "proof",
          TRUST + " Invalid inputs for larger n are structured+seeded (bounded); the general claim is the lemma over C16 soundness and validate.",
          "pyvc VC (modular callee contract) + representation-hiding proxies + exhaustive enumeration", "DESIGN.md 5 (C08)")
 
+register("C16", "proof",
+         "find_local_clifford_layer is cut into segments on the real AST and each segment's contract is proved for ALL inputs of every shape 1<=m<=n<=6 (7 thorough): "
+         "the linearity identity Rs*row = check_LC-LHS(A(row)) by ANF normal form, the basis/filter bijection, the span construction, the row-loop body (returns iff all "
+         "blocks invertible, returned blocks = A(row)), the gate-word synthesis (raises iff not invertible, word action = block) and check_LC itself; with null_space's "
+         "contract from C18 a five-line lemma gives soundness (without validity precondition) and completeness. The top-level contract is cross-checked against brute "
+         "force over all 6^n layers on ALL (group or sub-list, graph) pairs for n<=3 and every 4-qubit class x all 64 graphs.",
+         TRUST + " 'Any n' is claimed for n<=6 (7) only; itertools.product contract assumed; M6 gate actions.",
+         "pyvc segment VCs (ANF + z3) on the real AST + lemma; brute-force GROUND cross-check", "DESIGN.md 5 (C16)")
+
 NOT_APPLICABLE = []   # every property is claimed; sub-claims outside the family's reach are labelled in the evidence
 
 
